@@ -258,8 +258,31 @@ class FmtEval:
                     else:
                         out.append(None)
                     res = ('okres',)
+                elif name in ("core::fmt::Formatter::<'a>::debug_struct", "core::fmt::Formatter::<'a>::debug_tuple"):
+                    # builder API: the text is assembled when the builder is finished (non-alternate form)
+                    nm = args[1][1] if len(args) > 1 and args[1] is not None and args[1][0] == 'str' else None
+                    res = ['builder', 'struct' if name.endswith('debug_struct') else 'tuple', nm, []]
+                elif name.startswith('core::fmt::builders::Debug') and name.endswith('::field') and args and isinstance(args[0], list):
+                    b_ = args[0]
+                    if b_[1] == 'struct':
+                        fn_ = args[1][1] if args[1] is not None and args[1][0] == 'str' else None
+                        b_[3].append((fn_, None))          # the value's own Debug text is not evaluated
+                    else:
+                        b_[3].append((None, None))
+                    res = b_
+                elif name.startswith('core::fmt::builders::Debug') and name.rsplit('::', 1)[1] in ('finish', 'finish_non_exhaustive') \
+                        and args and isinstance(args[0], list):
+                    b_ = args[0]
+                    ne = name.endswith('finish_non_exhaustive')
+                    if b_[2] is None or b_[3]:
+                        out.append(None)               # fields print values: not a type-level constant
+                    elif b_[1] == 'struct':
+                        out.append(b_[2] + (' { .. }' if ne else ''))
+                    else:
+                        out.append(b_[2] + ('(..)' if ne else ''))
+                    res = ('okres',)
                 elif "core::fmt::Formatter::<'a>::" in name or name.startswith('core::fmt::builders::'):
-                    out.append(None)   # debug_struct & co: unknown text
+                    out.append(None)   # other builders: unknown text
                     res = ('okres',)
                 if dest is not None:
                     env[dest] = res
